@@ -16,13 +16,14 @@ vars == <<toks, pend>>
 (* ELEM / FLD read a list element / an object field, PUT / FBUMP write that very slot and return it    *)
 IntProds == {"L", "add", "sub", "mul", "call2", "call3", "orp", "orn", "rec", "neg", "VAR", "BUMP", "ELEM", "PUT", "FLD", "FBUMP"}
 (* KT / KF are the literals true / false (no side effect): folding must not drop a sibling *)
-BoolProds == {"LT", "LF", "and", "or", "lt", "eq", "not", "andor", "KT", "KF"}
+(* BELEM / BFLD read a bool out of a list element / an object field (what reaches the operator or the condition is a view) *)
+BoolProds == {"LT", "LF", "and", "or", "lt", "eq", "not", "andor", "KT", "KF", "BELEM", "BFLD"}
 IxProds == {"LI0", "LI1"}
 (* listself / callself / sumself: a zero-argument recursive call `self()` as a later element / argument / operand, after a plain *)
 (* name (the earlier value is on the operand stack while the callee runs)                                                      *)
 RootProds == {"printi", "printb", "list3", "call4", "ifb", "assign2", "listidx", "map3", "mcall2", "listself", "callself", "sumself"}
 Kids(p) ==
-    CASE p \in {"L", "LT", "LF", "LI0", "LI1", "VAR", "BUMP", "KT", "KF", "ELEM", "PUT", "FLD", "FBUMP", "listself", "callself", "sumself"} -> <<>>
+    CASE p \in {"L", "LT", "LF", "LI0", "LI1", "VAR", "BUMP", "KT", "KF", "ELEM", "PUT", "FLD", "FBUMP", "listself", "callself", "sumself", "BELEM", "BFLD"} -> <<>>
       [] p \in {"add", "sub", "mul", "call2", "lt", "eq"} -> <<"int", "int">>
       [] p = "call3" -> <<"int", "int", "int">>
       [] p = "listidx" -> <<"int", "int", "ix">>
@@ -38,7 +39,7 @@ Kids(p) ==
       [] p = "ifb" -> <<"bool">>
       [] p = "assign2" -> <<"int", "int">>
 Prods(ty) == CASE ty = "int" -> IntProds [] ty = "bool" -> BoolProds [] ty = "ix" -> IxProds [] ty = "root" -> Roots
-Leafs(ty) == CASE ty = "int" -> {"L", "VAR", "BUMP", "ELEM", "PUT", "FLD", "FBUMP"} [] ty = "bool" -> {"LT", "LF", "KT", "KF"} [] ty = "ix" -> IxProds [] ty = "root" -> {}
+Leafs(ty) == CASE ty = "int" -> {"L", "VAR", "BUMP", "ELEM", "PUT", "FLD", "FBUMP"} [] ty = "bool" -> {"LT", "LF", "KT", "KF", "BELEM", "BFLD"} [] ty = "ix" -> IxProds [] ty = "root" -> {}
 
 Init == toks = <<>> /\ pend = <<[ty |-> "root", d |-> 0]>>
 Choose(p) ==
@@ -71,6 +72,8 @@ Parse(ts, i) ==
              [] p = "PUT" -> Call(V("put"), <<>>)
              [] p = "FLD" -> Fld(V("box"), "n")
              [] p = "FBUMP" -> MCall(V("box"), "bump", <<>>)
+             [] p = "BELEM" -> Idx(V("bcells"), V("z0"))
+             [] p = "BFLD" -> Fld(V("box"), "on")
              [] p = "KT" -> B(TRUE)
              [] p = "KF" -> B(FALSE)
              [] p = "LT" -> Call(V("lb"), <<I(i), B(TRUE)>>)
@@ -117,10 +120,10 @@ Tail2(ts) == IF ts[1] = "map3" THEN <<Print(Idx(V("mm"), S("a"))), Print(Idx(V("
 
 Prologue ==
     <<Let("cnt", I(1000)), Let("left", I(3)),
-      LetT("cells", "[int...]", List(<<I(500)>>)), Let("z0", I(0)),
+      LetT("cells", "[int...]", List(<<I(500)>>)), Let("z0", I(0)), LetT("bcells", "[bool...]", List(<<B(TRUE), B(FALSE)>>)),
       Let("put", Fn("put", <<>>, "int", <<Print(S("put")), Let("k0", I(0)), Assign(Idx(V("cells"), V("k0")), "+", I(1)), Ret(Idx(V("cells"), V("k0")))>>)),
-      [k |-> "class", n |-> "Box", export |-> FALSE, fields |-> <<[n |-> "n", ty |-> "int"]>>,
-       ctor |-> <<[ps |-> <<>>, b |-> <<Assign(Fld(Self, "n"), "=", I(700))>>]>>,
+      [k |-> "class", n |-> "Box", export |-> FALSE, fields |-> <<[n |-> "n", ty |-> "int"], [n |-> "on", ty |-> "bool"]>>,
+       ctor |-> <<[ps |-> <<>>, b |-> <<Assign(Fld(Self, "n"), "=", I(700)), Assign(Fld(Self, "on"), "=", B(FALSE))>>]>>,
        methods |-> <<[n |-> "bump", ps |-> <<>>, rt |-> "int", b |-> <<Print(S("fbump")), Assign(Fld(Self, "n"), "+", I(1)), Ret(Fld(Self, "n"))>>],
                      [n |-> "add2", ps |-> <<P("a", "int"), P("b", "int")>>, rt |-> "int",
                       b |-> <<Print(S("add2")), Ret(Bin("-", Bin("*", V("a"), I(3)), V("b")))>>]>>],
